@@ -23,6 +23,9 @@ def r1_truth_tables(ctx):
     if not f:
         return
     f, packed = _delegate_target(ctx.P, f)
+    NEG = packed == 'negated'     # f computes the negation of `applies`; its recursive calls were normalised to `!applies(..)`
+    if NEG:
+        packed = None
     ctx.touch(f)
     REC = {LIM + '::applies', f.key}
     SELF = ('arg', f.local_name(1))
@@ -51,13 +54,14 @@ def r1_truth_tables(ctx):
     ctx.floor('variants handled by RuntimeLimit::applies', len([v for v in by_variant if v]), 5)
     # None
     for p, d, atoms in by_variant.get('None', []):
-        ctx.check(path_ret(f, p) == ('int', 0), 'table-None', 'RuntimeLimit::None never applies', f.where_path(p))
+        rv, ng = _ret_value(f, p)
+        ctx.check(rv[0] == 'int' and (bool(rv[1]) != ng) == NEG, 'table-None', 'RuntimeLimit::None never applies', f.where_path(p))
     # EventCount / SimTime
     for var, argtree in (('EventCount', A_COUNT), ('SimTime', A_TIME)):
         argname = show_c(argtree) if 'show_c' in globals() else str(argtree)
         for p, d, atoms in by_variant.get(var, []):
-            r = path_ret(f, p)
-            a = atom_of(r, ('eq', 1))
+            r, ng = _ret_value(f, p)
+            a = atom_of(r, ('eq', 0 if (NEG != ng) else 1))
             ok = a is not None and a[0] == 'cmp'
             if ok:
                 op, l, rr = a[1], a[2], a[3]
@@ -115,11 +119,14 @@ def r1_truth_tables(ctx):
                             consistent = False
                 if not consistent:
                     continue
-                r = peel(path_ret(f, p))
-                if r[0] == 'phi':
-                    r = peel(_ret_on_path(f, p))
+                r, neg_r = _ret_value(f, p)
                 if r[0] == 'int':
-                    results.add(bool(r[1]))
+                    results.add(bool(r[1]) != neg_r)
+                elif r[0] == 'call' and r[1] in REC and neg_r:
+                    which = _operand_index(canon(r[2][0]), var)
+                    if which is None or not same_args(r[2]):
+                        operands_ok = False
+                    results.add(not (L if which == 0 else R))
                 elif r[0] == 'call' and r[1] in REC:
                     which = _operand_index(canon(r[2][0]), var)
                     if which is None or not same_args(r[2]):
@@ -127,6 +134,8 @@ def r1_truth_tables(ctx):
                     results.add(L if which == 0 else R)
                 else:
                     results.add(None)
+            if NEG:
+                results = {(None if x is None else (not x)) for x in results}
             if results != {comb(L, R)}:
                 bad.append(((L, R), sorted(map(str, results))))
         ctx.check(not bad and operands_ok, 'table-%s' % var,
@@ -142,6 +151,9 @@ def _delegate_target(P, f):
         g = P.fns[s.name]
         args = [peel(f.expr_operand(a, s.b, 'T')) for a in s.args]
         rts = [peel(t) for _, t in ret_trees(f)]
+        if rts and all(t[0] == 'un' and t[1] == 'Not' and peel(t[2])[0] == 'call' and peel(t[2])[1] == g.key for t in rts) \
+                and g.argc == f.argc and all(a[0] == 'arg' and a[1] == i + 1 for i, a in enumerate(args)):
+            return g, 'negated'    # applies(..) = !g(..): g computes the dual ("admits")
         if not (rts and all(t[0] == 'call' and t[1] == g.key for t in rts)):
             return f, None
         if g.argc == f.argc and all(a[0] == 'arg' and a[1] == i + 1 for i, a in enumerate(args)):
@@ -174,8 +186,27 @@ def _ret_on_path(f, path):
     for idx, b in enumerate(path):
         for i, st in enumerate(f.stmts(b)):
             if st['k'] == 'assign' and st['p']['l'] == 0 and not st['p']['pr']:
-                last = f.expr_operand_on_path(st['r']['o'], path, idx, i) if st['r']['k'] == 'use' else f.expr_rvalue(st['r'], b, i)
+                if st['r']['k'] == 'use':
+                    last = f.expr_operand_on_path(st['r']['o'], path, idx, i)
+                elif st['r']['k'] == 'unop' and st['r']['op'] == 'Not':
+                    last = ('un', 'Not', f.expr_operand_on_path(st['r']['a'], path, idx, i))
+                else:
+                    last = f.expr_rvalue(st['r'], b, i)
     return last if last is not None else ('unknown',)
+
+
+def _ret_value(f, path):
+    """(tree, negated): the value returned on this path, resolved along the path, with leading `!` stripped and counted"""
+    r = peel(path_ret(f, path)) if path_ret(f, path) is not None else ('unknown',)
+    top = r
+    while top[0] == 'un' and top[1] == 'Not':
+        top = peel(top[2])
+    if top[0] == 'phi':
+        r = peel(_ret_on_path(f, path))
+    neg = False
+    while r[0] == 'un' and r[1] == 'Not':
+        r = peel(r[2]); neg = not neg
+    return r, neg
 
 
 def _operand_index(recv, var):
@@ -204,7 +235,9 @@ def r2_ordinal(ctx, cfg='A'):
     c = cnt[1] if (cnt[0] == 'field' and cnt[1][0] == 'bin') else cnt
     ok_cnt = c[0] == 'bin' and c[1].startswith('Add') and peel(c[2])[0] == 'field' and CNT is not None and peel(c[2])[2] == CNT and c[3] == ('int', 1)
     ok_tm = tm[0] == 'field' and tm[2] == '1' and peel(tm[1])[0] == 'call' and peel(tm[1])[1].endswith('FutureEventSet::fetch_next')
-    ok_recv = recv[0] == 'field' and recv[2] == 'limit'
+    from .dispatch import limit_fields
+    LBASE, LOVR = limit_fields(ctx, cfg)
+    ok_recv = LBASE == 'limit' or (recv[0] == 'field' and recv[2] == 'limit')
     ctx.check(ok_cnt and ok_tm and ok_recv, 'ordinal-and-time',
               "the limit is asked about the event's ordinal (events dispatched so far + 1) and its own timestamp", s.where(),
               {'limit': show(recv), 'ordinal': show(cnt), 'time': show(tm)})
@@ -243,10 +276,15 @@ def r3_finish(ctx, cfg='A'):
         if (s.callee or '') != 'std::iter::Extend::extend' or len(s.args) != 2:
             continue
         src = peel(f.expr_operand(s.args[1], s.b, 'T'))
-        if not (src[0] == 'call' and src[1].endswith('iter::from_fn') and src[2]):
-            continue
-        cl = peel(src[2][0])
-        g = P.fns.get(cl[1][len('closure:'):]) if cl[0] == 'agg' and str(cl[1]).startswith('closure:') else None
+        g = None
+        if src[0] == 'call' and src[1].endswith('iter::from_fn') and src[2]:
+            cl = peel(src[2][0])
+            g = P.fns.get(cl[1][len('closure:'):]) if cl[0] == 'agg' and str(cl[1]).startswith('closure:') else None
+        elif src[0] == 'agg' and str(src[1]).startswith('adt:'):
+            # a private draining iterator over the event set (`set.drain()`): judged by its `next`
+            adt = strip_generics(str(src[1])[4:]).rsplit('::', 1)[0]
+            gs = [h for h in P.impls_of_trait_method('std::iter::Iterator', 'next') if h.self_adt and strip_generics(h.self_adt) == adt]
+            g = gs[0] if len(gs) == 1 else None
         if g is None:
             continue
         good = True
@@ -314,6 +352,42 @@ def _fes(cfg):
     return 'des::runtime::event::event_set::%s::FutureEventSet' % ('cqueue_impl' if cfg == 'A' else 'default_impl')
 
 
+def _build_folds_with_add(ctx, B, fld):
+    """Builder::build composes the requested limits as `list.into_iter().fold(RuntimeLimit::None, |mut acc, l| { acc.add(l); acc })`"""
+    P = ctx.P
+    fb = P.fns.get(B + '::build')
+    if fb is None:
+        return False
+    for c in fb.calls():
+        if (c.callee or '') != 'std::iter::Iterator::fold' or len(c.args) != 3:
+            continue
+        src = fb.expr_operand(c.args[0], c.b, 'T')
+        init = peel(fb.expr_operand(c.args[1], c.b, 'T'))
+        cl = peel(fb.expr_operand(c.args[2], c.b, 'T'))
+        if receiver_field(src) != fld or any(x[0] == 'call' and x[1].split('::')[-1] in ('rev', 'filter', 'skip', 'take', 'step_by', 'filter_map') for x in walk(src)):
+            continue
+        if not (init[0] == 'agg' and str(init[1]).endswith('RuntimeLimit::None')):
+            continue
+        g = P.fns.get(cl[1][len('closure:'):]) if cl[0] == 'agg' and str(cl[1]).startswith('closure:') else None
+        if g is None:
+            continue
+        ads = g.calls_to(LIM + '::add')
+        if len(ads) != 1 or not g.postdominates_entry(ads[0].b):
+            continue
+        a0 = peel_c(g.expr_operand(ads[0].args[0], ads[0].b, 'T'))
+        a1 = peel(g.expr_operand(ads[0].args[1], ads[0].b, 'T'))
+        rts = [peel(t) for _, t in ret_trees(g)]
+        if a0[0] == 'arg' and a0[1] == 2 and a1[0] == 'arg' and a1[1] == 3 and rts and all(t[0] == 'arg' and t[1] == 2 for t in rts):
+            # ... and the folded value becomes the runtime's limit
+            for _, rt in ret_trees(fb):
+                for x in walk(rt):
+                    if x[0] == 'agg' and str(x[1]).endswith('runtime::Runtime::Runtime') and len(x) > 3 and 'limit' in x[3]:
+                        v = x[2][list(x[3]).index('limit')]
+                        if any(y[0] == 'call' and y[1] == 'std::iter::Iterator::fold' for y in walk(v)):
+                            return True
+    return False
+
+
 def r4_builder_composition(ctx):
     ctx.set_rule('C11.R4')
     B = 'des::runtime::builder::Builder'
@@ -325,6 +399,21 @@ def r4_builder_composition(ctx):
         via_limit = f.calls_to(B + '::limit') if m != 'limit' else []
         ok = len(adds) + len(via_limit) == 1
         detail = None
+        pushes = [c for c in f.calls() if c.name == 'std::vec::Vec::push' and c.argtys and 'RuntimeLimit' in c.argtys[0]]
+        if not ok and not adds and not via_limit and len(pushes) == 1:
+            # deferred composition: the setter appends to the list of requested limits; Builder::build folds that list with
+            # RuntimeLimit::add in request order (checked once below)
+            c = pushes[0]
+            fld = receiver_field(f.expr_operand(c.args[0], c.b, 'T'))
+            arg = peel(f.expr_operand(c.args[1], c.b, 'T'))
+            good = fld is not None and _build_folds_with_add(ctx, B, fld)
+            if var:
+                good = good and arg[0] == 'agg' and arg[1].endswith('RuntimeLimit::' + var) and peel(arg[2][0])[0] == 'arg'
+            else:
+                good = good and arg[0] == 'arg'
+            good = good and not any(x.name.split('::')[-1] in ('clear', 'pop', 'remove', 'truncate', 'insert', 'swap', 'retain', 'drain') and x.argtys and 'RuntimeLimit' in x.argtys[0] for x in f.calls())
+            ctx.check(good, 'builder-%s' % m, 'Builder::%s adds its limit to the configured ones (appended to the request list that build() folds with RuntimeLimit::add)' % m, f.where(), show(arg))
+            continue
         if ok:
             s = (adds + via_limit)[0]
             recv = peel(f.expr_operand(s.args[0], s.b, 'T'))
